@@ -84,7 +84,10 @@ struct ChannelSlot {
     rx: MioReceiver<IoLoopMessage>,
     tx: CrossbeamSender<Result<ChannelMessage>>,
     collector: ContentCollector,
+    #[cfg(not(amiquip_verif))]
     consumers: HashMap<String, CrossbeamSender<ConsumerMessage>>,
+    #[cfg(amiquip_verif)]
+    consumers: HashMap<String, CrossbeamSender<ConsumerMessage>, crate::verif::FixedState>,
     return_handler: Option<CrossbeamSender<Return>>,
     pub_confirm_handler: Option<CrossbeamSender<Confirm>>,
     #[cfg(amiquip_verif)]
@@ -113,7 +116,7 @@ impl ChannelSlot {
             rx: mio_rx,
             tx,
             collector: ContentCollector::new(channel_id),
-            consumers: HashMap::new(),
+            consumers: Default::default(),
             return_handler: None,
             pub_confirm_handler: None,
             #[cfg(amiquip_verif)]
